@@ -115,6 +115,10 @@ type RunSpec struct {
 	// GCAt: scheduling steps before which the simulator makes the Go runtime collect garbage
 	// (two cycles: sync.Pool caches of the code under test are empty afterwards)
 	GCAt []int `json:"gc_at,omitempty"`
+	// Stall: the destination of one worker stops accepting (a client that stops reading): the
+	// worker stays parked inside its (after+1)-th sink call until every other worker has
+	// finished. Nobody else may depend on it.
+	Stall *StallPlan `json:"stall,omitempty"`
 
 	// ProcHist: set when the violation needs what the same OS process executed before this
 	// run (state kept at package level by the code under test); replay then re-executes the
@@ -126,6 +130,11 @@ type RunSpec struct {
 	MinFrom    *MinFrom `json:"minimised_from,omitempty"`
 	RaceReport string   `json:"race_report,omitempty"`
 	Note       string   `json:"note,omitempty"`
+}
+
+type StallPlan struct {
+	Worker int `json:"worker"`
+	After  int `json:"after_sink_calls"`
 }
 
 type ProcHistory struct {
@@ -175,6 +184,10 @@ func (s *RunSpec) clone() *RunSpec {
 	}
 	c.Decisions = append([]int16(nil), s.Decisions...)
 	c.GCAt = append([]int(nil), s.GCAt...)
+	if s.Stall != nil {
+		st := *s.Stall
+		c.Stall = &st
+	}
 	c.Expect = nil
 	return &c
 }
@@ -523,6 +536,9 @@ func execOp(e *Env, trees map[int]*treeHandle, client, idx int, op Op, y *yielde
 	if yb, ok := w.(yieldingBuf); ok && yb.s != nil {
 		yb.callerFlush()
 	}
+	if res.Sink != nil && res.Sink.nonSticky {
+		res.Sink.errCallsAtReturn, res.Sink.returned = res.Sink.errCalls, true
+	}
 	if keepFrom >= 0 {
 		// what this call added to the long-lived destination
 		res.Out = append([]byte{}, res.Sink.acc[keepFrom:]...)
@@ -667,6 +683,11 @@ func checkFaulted(res *OpResult, R []byte) *Violation {
 	}
 	if res.Panic != "" {
 		return &Violation{Class: "panic", Detail: "panic with a failing writer: " + firstLine(res.Panic), Got: s.acc, Want: R}
+	}
+	if s.nonSticky && (s.errCalls > 0 && !s.judged || s.shortNil > 0) {
+		// a destination that does not remember errors failed where only a discarded write
+		// result showed it: lost by design, not judged (see Sink.judged)
+		return nil
 	}
 	all := s.acc
 	if s.plan != nil && s.plan.Kind == "short+nil" {
